@@ -131,23 +131,33 @@ Slices(codes, lens, i, from) ==
 RECURSIVE Intersperse(_, _, _)
 Intersperse(x, ys, i) == IF i > Len(ys) THEN <<>>
                          ELSE (IF i = 1 THEN <<ys[i]>> ELSE <<x, ys[i]>>) \o Intersperse(x, ys, i + 1)
+\* build_fncall(ctx, constructor, argdocs=[doc]) around the literal of a str / bytes SUBCLASS instance
+\* (d[6] = the constructor's printed name, <<>> for the exact built-in types)
+CallWrap(name, i, doc) ==
+  IF Len(name) = 0 THEN doc
+  ELSE LET soft == <<"fc", HLT, NILT, 0>>
+       IN <<"grp", <<"cat", << <<"ann", 3, TextT(name)>>, <<"ann", 13, TextT(<<40>>)>>,
+                              <<"nest", i, <<"cat", <<soft, <<"cat", << <<"cat", <<doc, NILT>>>> >>>> >>>>>>,
+                              soft, <<"ann", 13, TextT(<<41>>)>> >>>>>>
 EvalStr(d, ind, col, pw, R) ==
   LET codes == d[2]
       bytes == d[3]
+      name == IF Len(d) >= 6 THEN d[6] ELSE <<>>
       q == QuoteOf(codes)
       flat == SingleLine(codes, bytes, q)
   IN IF ~ModelledStr(codes) THEN <<"unmodelled">>
-     ELSE IF Len(codes) + 2 <= Min(pw - col, ind + R - col) THEN flat
+     ELSE IF Len(codes) + 2 <= Min(pw - col, ind + R - col) THEN CallWrap(name, d[5], flat)
      ELSE LET maxlen == Max(Min(pw, ind + R) - ind - 2, 10)
               ls == Lines(Classes(codes), bytes, FALSE, q, maxlen)
-          IN IF Len(ls) <= 1 THEN flat
+          IN IF Len(ls) <= 1 THEN CallWrap(name, d[5], flat)
              ELSE LET lens == [i \in 1..Len(ls) |-> Len(ls[i])] \o <<>>
                       pieces == Slices(codes, lens, 1, 1)
                       lits == [i \in 1..Len(pieces) |-> SingleLine(pieces[i], bytes, q)] \o <<>>
                       parts == Intersperse(HLT, lits, 1)
                       lp == <<"ann", 13, TextT(<<40>>)>>
                       rp == <<"ann", 13, TextT(<<41>>)>>
-                  IN CASE d[4] = "plain" -> <<"ab", <<"cat", parts>>>>
+                  IN CASE Len(name) > 0 -> CallWrap(name, d[5], <<"ab", <<"cat", parts>>>>)   \* a subclass: always plain
+                       [] d[4] = "plain" -> <<"ab", <<"cat", parts>>>>
                        [] d[4] = "hang" -> <<"ab", <<"nest", d[5], <<"cat", parts>>>>>>
                        [] d[4] = "parens" ->
                             <<"ab", <<"cat", <<lp, <<"nest", d[5], <<"cat", <<HLT>> \o parts>>>>, HLT, rp>>>>>>
